@@ -40,6 +40,9 @@ func checkC13(c *Ctx, r *Report, tier string) {
 	c13R3(c, r, x)
 	c13R4(c, r, x)
 	publishedVertexWrites(c, r, "C13.R4")
+	r.Rule("C13.R6", "what concurrent readers rely on: a removed vertex keeps its out-edges; distance computation is re-entrant (no package-level result slot)", 2)
+	removedVertexKeepsItsEdges(c, r, "C13.R6")
+	distanceIsReentrant(c, r, "C13.R6")
 }
 
 // acquirers: module functions that may acquire a mutex or perform a channel operation (transitively).
